@@ -27,4 +27,5 @@ class DefinedMethodsKey(ListKey["Method"]):
 
 @dataclass(frozen=True)
 class ProvidedMethodsKey(ListKey["Method"]):
-    pass
+    # read once before simultaneous transactions are merged (which provides new methods) and once after
+    lock_on_get = False
